@@ -1007,7 +1007,7 @@ theorem orphanStep_frame (s : Ser) (h : s.orphanOk) :
   | none => exact ⟨rfl, rfl, h, rfl, fun _ => rfl⟩
   | some ops =>
     cases ops with
-    | nil => simp only; exact ⟨rfl, rfl, h, rfl, fun _ => rfl⟩
+    | nil => exact ⟨rfl, rfl, h, rfl, fun _ => rfl⟩
     | cons op rest =>
       have hop := orphanish_safe op (h _ ho op (List.mem_cons_self ..))
       refine ⟨?_, ?_, ?_, rfl, ?_⟩
